@@ -338,6 +338,24 @@ func (r *c14Runner) Do(op []string) string {
 		return b2s(gogu.MapSome(r.mkMap(op[1]), c14P(op[2])))
 	case "mapcontains":
 		return b2s(gogu.MapContains(r.mkMap(op[1]), atoi(op[2])))
+	case "mapcontainsptr":
+		// MapContains on a map whose VALUES ARE POINTERS (each to its own int): equality of values is pointer identity.
+		// <a pointer to a fresh int equal to v is contained (never)> <the pointer stored for some entry of value v is>
+		src := r.mkMap(op[1])
+		v := atoi(op[2])
+		pm := make(map[int]*int, len(src))
+		var stored *int
+		for k, x := range src {
+			x := x
+			pm[k] = &x
+			if x == v {
+				stored = pm[k]
+			}
+		}
+		fresh := v
+		b1 := gogu.MapContains(pm, &fresh)
+		b2 := stored != nil && gogu.MapContains(pm, stored)
+		return b2s(b1) + " " + b2s(b2)
 	case "pluck":
 		return ints(gogu.Pluck(r.mkColl(op[1]), atoi(op[2])))
 	case "slicetomap":
@@ -431,7 +449,7 @@ func c14MapOps(m string, keyLists []string, probeVals []int, reps int) []string 
 		ops = append(ops, "mapvalues "+m+" "+f)
 	}
 	for _, v := range probeVals {
-		ops = append(ops, "mapcontains "+m+" "+itoa(v))
+		ops = append(ops, "mapcontains "+m+" "+itoa(v), "mapcontainsptr "+m+" "+itoa(v))
 	}
 	for rep := 0; rep < reps; rep++ {
 		for _, g := range c14Gs {
